@@ -271,7 +271,7 @@ class Session:
             if closed:
                 if self.was_oper or self.state == "oper":
                     # possibly DIE/SQUIT by the victim itself: give the process time to stop
-                    for _ in range(80):
+                    for _ in range(400):
                         if not self.srv.alive():
                             self.died = True
                             return
@@ -330,6 +330,12 @@ class Session:
                 if any("killed by" in m.raw for m in ex.lines):
                     self.died = True  # killed by the victim holding operator status: explained
                     return False
+                if self.was_oper or self.state == "oper":
+                    # DIE / SQUIT by the victim as operator ends every session first and the process a moment later
+                    for _ in range(400):
+                        if not self.srv.alive():
+                            break
+                        time.sleep(0.01)
                 if not self.srv.alive():
                     self.died = True
                     return False
